@@ -11,6 +11,7 @@ mod lb;
 mod printer;
 mod pty;
 mod rawmode;
+mod sessions;
 mod render;
 #[cfg(feature = "sqlite")]
 mod sqlite;
@@ -31,6 +32,8 @@ fn exec_line(req: &str) -> String {
     let r = catch_unwind(AssertUnwindSafe(|| match f.first().copied() {
         Some("hist") => hist::exec(&f[1..]),
         Some("hf") => histfile::exec(&f[1..]),
+        Some("sess") => sessions::exec(&f[1..]),
+        Some("sessx") => sessions::exec_x(&f[1..]),
         Some(t) if t.starts_with("ed") => ed::exec(&f[1..]),
         Some("keys") => keys::exec(&f[1..]),
         Some("lb") | Some("lb4") => lb::exec(&f[1..]),
@@ -64,7 +67,7 @@ fn main() {
     let mut out = std::io::BufWriter::new(proto_out);
     let mut ci = CharInfoEmitter::default();
     let mut emit = |req: String, out: &mut dyn Write| {
-        if req.starts_with("hf ") {
+        if req.starts_with("hf ") || req.starts_with("sess ") {
             // unescaping a history file produces line feed / carriage return / backslash even
             // when the request does not mention them
             for l in ci.lines_for("10 13 92") {
@@ -114,6 +117,8 @@ fn main() {
             match target.as_str() {
                 "hist" => hist::gen(&ctx, &mut sink),
                 "hf10" => histfile::gen10(&ctx, &mut sink),
+                "sess" => sessions::gen(&ctx, &mut sink),
+                "sessx" => sessions::gen_x(&ctx, &mut sink),
                 "hf12" => histfile::gen12(&ctx, &mut sink),
                 "ed" => ed::gen(&ctx, &mut sink),
                 "ed13" => ed::gen_profile(&ctx, "ed13", ed::Profile::Validator, &mut sink),
@@ -140,6 +145,12 @@ fn main() {
                     std::process::exit(2)
                 }
             }
+        }
+        // hidden: one worker process of target `sessx`
+        Some("sess-child") => {
+            drop(out);
+            sessions::child(&args[2..]);
+            return;
         }
         // hidden: the child of target `direct` (stdin is the pipe under test)
         Some("direct-child") => {
